@@ -69,3 +69,9 @@ CHECKS["C10"] = dict(
     text="Proved: with trace=None the real execute() runs the same nodes, returns/raises at the same points and never touches the ghost trace; _data_summary, _context_summary, _init_summaries, _augment_output_summaries (for every value of every keyword flag), _trace_options and _ensure_context_delta never raise (user hooks serialize/sha256/repr/canonical JSON/len may raise any Exception) and modify nothing but the summaries dict they are given. NOT proved: equality of non-volatile record fields across runs (depends on the concrete driver and hashing): bounded tier compares traced vs untraced outcomes and repeated traces modulo volatile fields over 9 configurations x 4 detail levels.",
     note="Bounded part is exploration. User hooks assumed not to mutate their argument.",
     ref="DESIGN.md section 7 (C10)")
+CHECKS["C17"] = dict(
+    level="proof",
+    technique="contract-based deductive verification of the real cli._run (400 lines): symbolic execution with every callee abstract behind a contract, ghost counters for pipeline.process / run_space_start / run_space_end, loop invariant over an arbitrary number of runs, z3; sink/trace side effects of the real CLI only by a bounded tier (labelled bounded)",
+    text="Proved on every path of the real _run, for arbitrary raw configurations, --context lists, run lists and symbolic --validate / --dry-run / --run-space-dry-run / --run-space-max-runs: a rejection (parse error, validation error, trace/execution component error, run-space error or cap, missing required context key) returns EXIT_CONFIG_ERROR with pipeline.process never called and no run_space_start; --validate, --dry-run and a run-space dry run never call process; the run-space CLI flags reach the configuration the parser sees; execution starts only if every required key is in --context or the first run; loop invariant runs_completed = idx = executed gives exit 0 iff all planned runs completed, EXIT_RUNTIME_ERROR / EXIT_INTERRUPT after a failing run with no later run started, and run_space_end emitted exactly once iff run_space_start was, with planned/completed counts and status truthful. Bounded: 49-64 real CLI invocations observing sink files and trace records.",
+    note="Assumed contracts (listed in evidence): parse_pipeline_config reads run_space.dry_run/max_runs from config['run_space'] and raises on invalid input; validate_pipeline raises on rejection; expand_run_space raises the configuration/cap error and returns its own run dicts; launch/identity records carry string ids. --set, --execution.*, --trace.* and --run-space-file are fixed to 'not given' in the proof harness and only exercised by the bounded tier. The correctness of the required-key analysis itself is C02.",
+    ref="DESIGN.md section 7 (C17)")
